@@ -79,16 +79,17 @@ def run(R, tier):
         # a plain number on either side of + and - is the scalar multivector with that coefficient (0 included)
         if i % 4 == 0:
             mxn = oc.make_mv(alg, [k for k, _ in x], [v for _, v in x])
-            for cnum in (0, rng.choice((1, -2, 3))):
+            import numpy as _np
+            for cnum in (0, rng.choice((1, -2, 3)), _np.float64(2.0), _np.int64(-3)):        # python and numpy numbers
                 for form, f, sgn_x, sgn_c in (('c + x', lambda: cnum + mxn, 1, 1), ('x + c', lambda: mxn + cnum, 1, 1), ('c - x', lambda: cnum - mxn, -1, 1), ('x - c', lambda: mxn - cnum, 1, -1)):
                     R.count('number-operand'); R.case((algs.describe(spec), 'num', form, cnum, ka), bool(x))
                     try:
                         out = oc.observe(f())
                     except Exception as e:  # noqa
-                        viol(R, spec, 'number-raises', f'{form} with c = {cnum} raised {type(e).__name__}', x=x, number=cnum, form=form); continue
-                    want = oc.lin((sgn_x, x), (sgn_c, [(0, cnum)]))
+                        viol(R, spec, 'number-raises', f'{form} with c = {cnum!r} raised {type(e).__name__}', x=x, number=int(cnum), form=form); continue
+                    want = oc.lin((sgn_x, x), (sgn_c, [(0, int(cnum))]))
                     if not oc.same_element(out, want):
-                        viol(R, spec, 'number', f'{form} with c = {cnum}, x = {x} gives {out}, expected {want}', x=x, number=cnum, form=form)
+                        viol(R, spec, 'number', f'{form} with c = {cnum!r}, x = {x} gives {out}, expected {want}', x=x, number=int(cnum), numpy=type(cnum).__module__ == 'numpy', form=form)
         for op in ('neg', 'reverse', 'involute', 'conjugate'):
             c = oc.case_for(pool, spec, alg, op, [x])
             cases.append(c)
@@ -164,6 +165,9 @@ def replay(R, rec):
             return oc.same_element(out, oc.lin((1, x), (1 if cl == 'add' else -1, y)))
         if cl == 'number':
             cnum, form = r['number'], r['form']
+            if r.get('numpy'):
+                import numpy as _np
+                cnum = _np.float64(cnum)
             out = oc.observe({'c + x': lambda: cnum + mx, 'x + c': lambda: mx + cnum, 'c - x': lambda: cnum - mx, 'x - c': lambda: mx - cnum}[form]())
             return oc.same_element(out, oc.lin((-1 if form == 'c - x' else 1, x), (-1 if form == 'x - c' else 1, [(0, cnum)])))
         if cl in ('neg', 'reverse', 'involute', 'conjugate'):
